@@ -20,7 +20,7 @@ RULE = ('family = one generated indexable pipeline (source, 1-3 stages from map 
         'surviving predecessors and as the very injected object. Plus: lazy filter, '
         'eager filter and FilterException+catch agree for the same predicate. '
         'Non-trivial = a fault fired; distinct = distinct (pipeline, fault plan, mode).')
-PROBES = ['foreign_exception_propagated', 'caught_at_first_position',
+PROBES = ['second_pass_differs_from_first', 'foreign_exception_propagated', 'caught_at_first_position',
           'caught_at_last_position', 'several_positions_dropped', 'subclass_caught',
           'items_iteration_with_drop']
 BUDGET = {
@@ -58,6 +58,14 @@ def gen_desc(rng):
                     a = b
                     break
         if a.sized and a.findexable:
+            if rng.random() < 0.2 and a.indexable:
+                # a per-epoch reshuffle directly below the catch: every pass
+                # over the same catch object sees other positions
+                st = {'op': 'reshuffle', 'seed': rng.randrange(1 << 16)}
+                b = pargen.abs_apply(a, st)
+                if b is not None:
+                    desc['stages'].append(st)
+                    a = b
             return desc, a
     raise RuntimeError('no pipeline')
 
@@ -94,14 +102,19 @@ def gen(rng, tier, index):
                  'mod': rng.randrange(2, 5), 'rem': rng.randrange(0, 3),
                  'items': rng.random() < 0.4}]
     desc, a = gen_desc(rng)
-    ids = sorted({i for e in (a.elems or []) for i in e})
+    reshuffled = desc['stages'][-1]['op'] == 'reshuffle'
+    if reshuffled:
+        # provenance of the elements is that of the stage below the reshuffle
+        below = pargen.abs_eval({'source': desc['source'], 'stages': desc['stages'][:-1]})
+        a.elems_below = below.elems
+    ids = sorted({i for e in ((a.elems if not reshuffled else a.elems_below) or []) for i in e})
     sites = [s['id'] if 'id' in s else s.get('map') for s in desc['stages']
              if s['op'] in ('map',) or s.get('map')]
     sites = [s for s in sites if s]
     catch = rng.choice(CATCHES)
     # key iteration of catch() looks examples up by key: with duplicate keys
     # (index lists with repeats) the library refuses loudly, not generated
-    firsts = [e[0] for e in (a.elems or []) if e]
+    firsts = [e[0] for e in ((a.elems if not reshuffled else a.elems_below) or []) if e]
     items = bool(a.items) and rng.random() < 0.4 and len(set(firsts)) == len(firsts)
     down = rng.random() < 0.3
     plans = []
@@ -114,8 +127,14 @@ def gen(rng, tier, index):
             plans.append([{'stage': rng.choice(sites), 'pos': rng.choice(ids),
                            'exc': rng.choice(KINDS)} for _ in range(k)])
     plans.append([])
+    if ids:
+        # examples that fail in one pass only (flaky loader)
+        for _ in range(2):
+            plans.append([{'stage': rng.choice(sites), 'pos': rng.choice(ids),
+                           'exc': rng.choice(KINDS), 'pass': rng.randrange(2)}
+                          for _k in range(rng.randrange(1, 3))])
     cases = []
-    nout = len(a.elems or [])
+    nout = len((a.elems if not reshuffled else a.elems_below) or [])
     for plan in plans:
         cases.append({'mode': 'catch', 'desc': desc, 'catch': catch, 'faults': plan,
                       'items': items, 'down': down,
@@ -172,27 +191,40 @@ def run(case):
         warnings.simplefilter('ignore')
         # --- reference: position by position on an independent build
         ctx = W.set_ctx(W.Ctx(faults=case['faults']))
-        ref_up = W.build(desc)
-        n = len(ref_up)
+        ref_build = W.build(desc)
+        n = len(ref_build)
         ctx.armed = True
-        expected, terminal = [], None
-        dropped = []
-        for i in range(n):
-            try:
-                v = ref_up[i]
-            except caught as e:
-                dropped.append(i)
-                if type(e) is W.InjectedFilterSub and ldc.FilterException in caught:
-                    probes['subclass_caught'] = 1
+        per_pass = []
+        for rep in range(2):
+            ctx.pass_index = rep
+            if rep == 0 and case['stop_k'] == 0:
+                # the consumer closes the iterator before the first next():
+                # nothing is evaluated and no permutation is drawn
+                per_pass.append(([], None, []))
                 continue
-            except Exception as e:
-                terminal = (W.exc_kind_of(e), W.norm(e.args))
-                break
-            if case['down']:
-                v = {'f': 'dn', 'x': v}
-            # keys are a function of the provenance ('k<first source id>')
-            expected.append(W.norm(('k%d' % W.src_ids(v)[0], v)
-                                   if case['items'] else v))
+            # an equal-seeded reshuffle below the catch draws once per pass
+            ref_up = ref_build.copy(freeze=True) if desc['stages'][-1]['op'] == 'reshuffle' \
+                else ref_build
+            expected, terminal = [], None
+            dropped = []
+            for i in range(n):
+                try:
+                    v = ref_up[i]
+                except caught as e:
+                    dropped.append(i)
+                    if type(e) is W.InjectedFilterSub and ldc.FilterException in caught:
+                        probes['subclass_caught'] = 1
+                    continue
+                except Exception as e:
+                    terminal = (W.exc_kind_of(e), W.norm(e.args))
+                    break
+                if case['down']:
+                    v = {'f': 'dn', 'x': v}
+                # keys are a function of the provenance ('k<first source id>')
+                expected.append(W.norm(('k%d' % W.src_ids(v)[0], v)
+                                       if case['items'] else v))
+            per_pass.append((expected, terminal, dropped))
+        expected, terminal, dropped = per_pass[0]
         # --- system under test
         ctx = W.set_ctx(W.Ctx(faults=case['faults']))
         ds = W.build(desc).catch(W.catch_spec_to_arg(spec))
@@ -203,6 +235,7 @@ def run(case):
         ctx.armed = True
         runs = []
         for rep in range(2):
+            ctx.pass_index = rep
             out, term, same = [], None, None
             it = iter(ds)
             try:
@@ -224,6 +257,7 @@ def run(case):
         W.set_ctx(None)
     tag = 'items' if case['items'] else 'values'
     for rep, (out, term, same) in enumerate(runs):
+        expected, terminal, dropped = per_pass[rep]
         exp_out, exp_term = expected, terminal
         if term == ('stopped',):
             exp_out = expected[:case['stop_k']]
@@ -261,6 +295,9 @@ def run(case):
                 'exception_not_same_object', 'exception_not_same_object:' + tag,
                 'a foreign exception was replaced by an equal copy'))
             break
+    expected, terminal, dropped = per_pass[0]
+    if per_pass[0][2] != per_pass[1][2] or per_pass[0][0] != per_pass[1][0]:
+        probes['second_pass_differs_from_first'] = 1
     if terminal is not None:
         probes['foreign_exception_propagated'] = 1
     if dropped:
